@@ -19,9 +19,10 @@ MinDocAccepted == LET r == RunDoc(MinDoc(c)) IN r.verdict = "accept" /\ r.warn =
 ChildNamedAfterClass == \A i \in 1..N : A(i).k \in {"sub", "lagg"} => (A(i).cls \in Classes /\ A(i).tag = A(i).cls)
 FoundByTag == Schema[c].bytag
 NoDuplicateTags == \A i, j \in 1..N : i # j => A(i).tag # A(j).tag
-\* every exclusivity group names existing, non-repeated, optional children
+\* every exclusivity group names existing optional children: single ones or repeated AGGREGATES (whose members arrive as
+\* positional arguments and are counted by class); a repeated data element cannot be counted
 GroupsWellFormed == \A m \in Schema[c].om \cup Schema[c].rm : \A a \in m :
-                       LET i == AttrByName(c, a) IN i # 0 /\ ~IsList(A(i)) /\ ~A(i).req /\ A(i).k # "unsup"
+                       LET i == AttrByName(c, a) IN i # 0 /\ A(i).k # "lelem" /\ ~A(i).req /\ A(i).k # "unsup"
 \* groups declared anywhere in the MRO are in force in the class
 GroupsInForce == Schema[c].om = Schema[c].omf /\ Schema[c].rm = Schema[c].rmf
 \* the writer puts list members where the RUN of adjacent list children they belong to starts (unsupported children are
